@@ -69,6 +69,15 @@ def tables(tier):
         for cells in itertools.product((0.5, 1.5, None), repeat=r * c):
             if None in cells:
                 yield 'sparse-float', [list(cells[i * c:(i + 1) * c]) for i in range(r)]
+    # bool tables with missing pairs (the placeholder for a missing pair is an int in a bool matrix)
+    for r, c in ((1, 2), (2, 1), (2, 2), (2, 3), (3, 2)):
+        for cells in itertools.product((False, True, None), repeat=r * c):
+            if None in cells:
+                yield 'sparse-bool', [list(cells[i * c:(i + 1) * c]) for i in range(r)]
+    # tall / wide tables of huge weights far apart: float64 tells them apart exactly (multiples of 2**54)
+    for r, c in ((2, 1), (1, 2), (3, 1), (3, 2), (2, 3)):
+        for cells in itertools.product((2 ** 54, 3 * 2 ** 54, 10 * 2 ** 54), repeat=r * c):
+            yield 'huge-exact', [list(cells[i * c:(i + 1) * c]) for i in range(r)]
 
 
 def brute(table):
@@ -85,6 +94,17 @@ def brute(table):
             t = sum(table[perm[j]][j] for j in range(k))
             best = t if best is None or t < best else best
     return best
+
+
+def float64_explains(table, res):
+    """True iff the assignment is optimal for the table as float64 sees it, up to the rounding error of a handful of
+    float64 additions at the magnitude of the largest weight - the one documented limit (known finding) of the routine."""
+    import math
+    rounded = [[int(float(w)) for w in row] for row in table]
+    chosen = sum(rounded[f][t] for f, (t, _) in res.items())
+    big = max(abs(w) for row in rounded for w in row)
+    ulp = int(math.ulp(float(big))) or 1
+    return chosen - brute(rounded) <= 4 * max(len(table), len(table[0])) * ulp
 
 
 def evaluate(name, table):
@@ -120,6 +140,8 @@ def evaluate(name, table):
         total = sum(w for _, w in res.values())
         opt = brute(table)
         if total != opt:
+            if total_abs > 2 ** 53 and not float64_explains(table, res):
+                feat = 'sum|w| > 2**53, but not optimal for the table rounded to float64 either'
             return {'key': f'suboptimal @ min_weight_bipartite_matching->linear_sum_assignment : {feat}',
                     'detail': f'{table!r} -> {res!r}: total {total}, optimum {opt}'}, None
     return None, h((json.dumps(table), sorted((f, t) for f, (t, _) in res.items())))
